@@ -21,7 +21,7 @@ MUT = [
  ("wire-jumps", "Wire/Read.lean", "readnameLoop b 10 src length", "readnameLoop b 11 src length", "C12", "readname compression-pointer budget 10 -> 11"),
  ("hs-lazy-retries", "Client/Handshake.lean", "if s.c.running ∧ i < 5 then s.park (sendLazySwitch s.c) evs (.lazy i)", "if s.c.running ∧ i < 6 then s.park (sendLazySwitch s.c) evs (.lazy i)", "C06", "lazy-switch handshake retries 5 -> 6"),
  ("hs-raw-retries", "Client/Handshake.lean", "if s.c.running ∧ i < 4 then s.park (sendRawUdpLogin s seed) evs (.rawLogin seed i)", "if s.c.running ∧ i < 3 then s.park (sendRawUdpLogin s seed) evs (.rawLogin seed i)", "C06", "raw login attempts 4 -> 3"),
- ("cli-cmc-36", "Client/Tunnel.lean", "if c.datacmc + 1 ≥ 36 then 0", "if c.datacmc + 1 ≥ 37 then 0", "C08", "data CMC cycle 36 -> 37"),
+ ("cli-cmc-36", "Client/Tunnel.lean", "if c.datacmc + 1 ≥ 36 then 0", "if c.datacmc + 1 ≥ 37 then 0", "C01", "data CMC cycle 36 -> 37"),
  ("cli-id-step", "Client/Tunnel.lean", "let id := (c.chunkid + 7727) % 65536", "let id := (c.chunkid + 7728) % 65536", "C02", "query id step 7727 -> 7728"),
  ("srv-login-len", "Server/Handle.lean", "if unpacked.length ≥ 18 ∧ logindata = (unpacked.drop 1).take 16 then", "if unpacked.length ≥ 17 ∧ logindata = (unpacked.drop 1).take 16 then", "C03", "login request minimum length 18 -> 17"),
  ("srv-userid-mask", "Server/Handle.lean", "let userid : Int := ((b1 >>> 1) &&& 15 : Nat)", "let userid : Int := ((b1 >>> 1) &&& 7 : Nat)", "C15", "user id mask of the fragsize probe 15 -> 7"),
